@@ -187,3 +187,29 @@ func vMarkdownTable(lines []string) ([][]string, bool) {
 	}
 	return rows, true
 }
+
+// H_C19_nested_header_footer_is_content: <header> and <footer> are page furniture only directly under <body> or under
+// the page's single wrapper element; inside one of several top-level blocks (a card, an article) they are content and
+// are returned in every mode.
+//
+//symgo:harness prop=C19 kernel=K6-nested-header-footer
+//symgo:desc HTML source: <body> holds two top-level <div>s (or a <div> and a <main>, enumerated), optionally with a <script> between them; the first holds <header> with a heading, a paragraph and <footer> with a paragraph, the second a paragraph; no navigation roles, classes or links anywhere; modes None, Explicit, Standard, Aggressive through TextWithOptions: every mode returns all four texts, in order
+func H_C19_nested_header_footer_is_content() {
+	second := []string{"div", "main"}[vAnyIntIn(0, 1)]
+	script := ""
+	if vAnyIntIn(0, 1) == 1 {
+		script = `<script>var x = 1;</script>`
+	}
+	src := `<!DOCTYPE html><html><head><title>T</title></head><body><div><header><h3>CardHeading</h3></header><p>CardBody text</p><footer><p>CardClosing remark</p></footer></div>` + script + `<` + second + `><p>SecondBlock</p></` + second + `></body></html>`
+	r, err := OpenReader(strings.NewReader(src))
+	vAssert("parses", err == nil && r != nil)
+	want := []string{"CardHeading", "CardBody", "CardClosing", "SecondBlock"}
+	for mode := NavigationExclusionNone; mode <= NavigationExclusionAggressive; mode++ {
+		txt, terr := r.TextWithOptions(ExtractOptions{NavigationExclusion: mode})
+		vAssert("no-error", terr == nil)
+		seq, ok := vMarkerSeq(txt, want)
+		vAssert("nothing-duplicated", ok)
+		vAssert("nested-header-and-footer-are-content-in-every-mode", len(seq) == len(want) && vIsSubseq(want, seq))
+	}
+	vReach("end")
+}
